@@ -21,7 +21,7 @@ about n bytes), "reuse" (re-register the same ServiceInfo object with a changed 
 [t, "update", svc, {"other_ttl", "host_ttl", "rev": r}], [t, "browse", host, type | [types...], {"cases": [...]}], [t, "close", host]],
 "net": {"seed", "mode", "dups", "drop": None | delivery index | {"dgram": d, "mode": "all" | "remote"}}, optional "stack" ("4" | "6" |
 "46": the sockets of EVERY host), "listen" (dedicated listen socket), "horizon" / "every" (long observation), "family"}.
-Times are ms since simulation start.  Hosts with two listeners (`46`, `listen`) are judged by stage O only.  A side report
+Times are ms since simulation start.  On hosts with two listeners (`46`, `listen`) the contracts are judged on the deliveries the listeners parsed.  A side report
 (`harness/c07proj.py`) evaluates the projection hypotheses of `C07_convergence_from_models_partial` on block logs of the same runs.
 """
 from __future__ import annotations
@@ -270,6 +270,8 @@ def gen_vocab_family(rng):
         ty = i % ntypes if i < ntypes else rng.randrange(ntypes)
         svcs.append({"owner": 0 if (i < 2 or nh == 2) else rng.choice([0, 2]), "ty": ty, "case": svc_case(rng, tcase, ty, 0.6)})
         if rng.random() < 0.25:
+            svcs[-1]["long"] = True
+        if rng.random() < 0.25:
             svcs[-1]["ip"] = rng.choice(["v6", "dual"])
         ops.append([hosts[svcs[-1]["owner"]]["up"] + rng.randint(0, 600), "register", i])
     tys = sorted(rng.sample(range(ntypes), rng.choice([2, ntypes])))
@@ -344,9 +346,32 @@ def gen_multipacket_family(rng, single=False):
     return link_variant(rng, case, 0.25)
 
 
+def gen_addr_family(rng):
+    """third review, escape mE: an `update` that moves the service to another address (the only service of its host, so that nothing
+    else advertises the old one); browsers that are there before, and one that starts 5-20 s after the update and resolves from its
+    host's cache -- the cache-flush rule has to have removed the old address record by then"""
+    nh = rng.choice([2, 3])
+    sv = {"owner": 0, "ty": 0}
+    if rng.random() < 0.4:
+        sv["ip"] = rng.choice(["v6", "dual"])
+    if rng.random() < 0.3:
+        sv["long"] = True
+    tu = rng.choice([3000, 5000, rng.randint(2500, 9000)])
+    ops = [[rng.choice([0, 100]), "browse", 1, 0], [rng.randint(200, 800), "register", 0], [tu, "update", 0, {"addr": 1}]]
+    if rng.random() < 0.4:
+        ops.append([tu + rng.choice([2000, 4000]), "update", 0, {"addr": rng.choice([0, 2])}])
+    ops.append([tu + rng.choice([7000, 11000, 20000]), "browse", nh - 1, 0])
+    ops.sort(key=lambda o: (o[0], o[1]))
+    case = {"simseed": rng.randrange(1 << 30), "hosts": [{"up": 0} for _ in range(nh)], "types": 1, "svcs": [sv], "ops": ops, "family": "address-change",
+            "net": {"seed": rng.randrange(1 << 30), "mode": rng.choice(["uniform", "extreme", "mixed"]), "drop": None, "dups": rng.choice(["none", "some"])}}
+    return link_variant(rng, case, 0.3)
+
+
 def gen_case(rng, idx=0, long_p=0.05):
     if idx == 6 or (idx > 6 and rng.random() < 0.02):
         return gen_unreg_close_family(rng)
+    if idx == 13 or (idx > 13 and rng.random() < 0.02):
+        return gen_addr_family(rng)
     if idx in (7, 8, 9) or (idx > 9 and rng.random() < 0.08):
         return gen_vocab_family(rng)
     if idx in (10, 11, 12) or (idx > 12 and rng.random() < 0.03):
@@ -388,6 +413,8 @@ def gen_case(rng, idx=0, long_p=0.05):
         k = svc_case(rng, tcase, ty, 0.25)  # mixed-case type / instance label / host name
         if k:
             svcs[-1]["case"] = k
+        if rng.random() < 0.1:
+            svcs[-1]["long"] = True  # an instance label of 45 bytes
         t = hosts[owner]["up"] + rng.choice([0, 1, rng.randint(0, 400), rng.randint(0, 4000), rng.randint(0, 8000)])
         ops.append([t, "register", s])
         last_reg_on_host[owner] = max(last_reg_on_host.get(owner, 0), t)
@@ -521,9 +548,15 @@ def spell_type(ty, k=0):
     return t
 
 
+SVC_LONG = set()  # services of the current case whose instance label is 45 bytes long (set by run_case, like SVC_TY)
+
+
 def svc_name(i, ty, k=0):
-    """instance name; bit 1 of k = upper-case instance label"""
-    return ("S%d." if k & 2 else "s%d.") % i + spell_type(ty, k)
+    """instance name; bit 1 of k = upper-case instance label; services in SVC_LONG get a label of more than 32 bytes"""
+    lab = ("S%d" if k & 2 else "s%d") % i
+    if i in SVC_LONG:
+        lab += "-" + ("Long" if k & 2 else "long") * 10 + "x" * (3 - len(str(i)))
+    return lab + "." + spell_type(ty, k)
 
 
 def host_name(h, k=0):
@@ -579,11 +612,15 @@ def run_case(case, proj=False):
     sim = vsim.Sim(case["simseed"], maxdelay=100)
     plan = Plan(case["net"])
     svcs = [dict(sv) for sv in case["svcs"]]  # (an `update` op may change a service's TTLs)
+    SVC_LONG.clear()
+    SVC_LONG.update(i for i, s in enumerate(svcs) if s.get("long"))
     names = {svc_name(i, s["ty"]).lower(): i for i, s in enumerate(svcs)}
     stack = case.get("stack", "4")
     listen = bool(case.get("listen"))
     SVC_TY.clear()
     SVC_TY.update({i: s["ty"] for i, s in enumerate(svcs)})
+    SVC_LONG.clear()
+    SVC_LONG.update(i for i, s in enumerate(svcs) if s.get("long"))
     trace = []  # abstract events
     memo = {}
     net = sim.net
@@ -664,13 +701,14 @@ def run_case(case, proj=False):
         tr = h.ltransport if (mc and h.ltransport is not None) else h.by_fam.get(fam)
         if tr is None or tr.closed or hstate[h.idx] != "up":
             return
-        trace.append([now(), "dlv", d, src.idx, h.idx, 1 if mc else 0, items])
+        dlv_ev = [now(), "dlv", d, src.idx, h.idx, 1 if mc else 0, items]
+        trace.append(dlv_ev)
         before = tr.protocol.last_message
         tr.protocol.datagram_received(data, (src.ip, src.port) if fam == 4 else (src.ip6, src.port, 0, SCOPE))
         if tr.protocol.last_message is before:
             # observed, not recomputed: the listener returned before parsing (duplicate-packet guard, oversize).  The link trace keeps
             # the delivery (on a one-listener host an ignored verbatim repeat is a no-op, C16); the projection report needs to know
-            ignored.append([len(trace) - 1, now(), d, h.idx])
+            ignored.append([dlv_ev, now(), d, h.idx])  # (the event itself: positions are fixed once refused registrations are filtered out)
 
     def sendto(h, tr, data, addr=None):
         if tr.closed:
@@ -735,11 +773,12 @@ def run_case(case, proj=False):
             kw["other_ttl"] = s["other_ttl"]  # TTL of the PTR (and TXT) record
         if s.get("host_ttl") is not None:
             kw["host_ttl"] = s["host_ttl"]  # TTL of SRV / address records
-        addrs = [socket.inet_aton(h.ip)]
+        a = s.get("addr", 0)  # (an `update` may move the service to another address: [t, "update", i, {"addr": k}])
+        addrs = [socket.inet_aton(h.ip if not a else "10.0.%d.%d" % (a, s["owner"] + 1))]
         if s.get("ip") == "v6":
-            addrs = [socket.inet_pton(socket.AF_INET6, "2001:db8::%x" % (s["owner"] + 1))]
+            addrs = [socket.inet_pton(socket.AF_INET6, "2001:db8:%x::%x" % (a, s["owner"] + 1))]
         elif s.get("ip") == "dual":
-            addrs.append(socket.inet_pton(socket.AF_INET6, "2001:db8::%x" % (s["owner"] + 1)))
+            addrs.append(socket.inet_pton(socket.AF_INET6, "2001:db8:%x::%x" % (a, s["owner"] + 1)))
         k = s.get("case", 0)
         props = {"k": "v%d" % ver, "i": str(i)}
         for j in range(0, s.get("txt", 0), 200):  # a TXT record of about `txt` bytes (items of at most 255)
@@ -833,6 +872,7 @@ def run_case(case, proj=False):
                 await zc.async_register_service(info)
             except Exception as ex:
                 ev[1] = "regfail:" + type(ex).__name__
+                ev.append(now())  # (when it was refused)
                 sstate[i] = "idle"
                 return
             ev[1] = "reg"
@@ -923,7 +963,8 @@ def run_case(case, proj=False):
     out["unreg_calls"] = unreg_calls
     out["close_unregs"] = close_unregs
     out["refused"] = net.refused
-    out["ignored"] = ignored
+    pos_of = {id(e): k for k, e in enumerate(out["trace"])}
+    out["ignored"] = [[pos_of[id(x[0])], x[1], x[2], x[3]] for x in ignored if id(x[0]) in pos_of]
     out["errors"] = [str(e.get("exception") or e.get("message"))[:200] for e in sim.errors]
     out["ndeliveries"] = net.n
     out["targets"] = net.targets
@@ -1410,14 +1451,21 @@ def oracle(case, obs):
             if got != want:
                 extra = sorted(set(got) - set(want))
                 miss = sorted(set(want) - set(got))
-                if extra and ("x", f["b"], extra[0]) not in seen:
-                    seen.add(("x", f["b"], extra[0]))
-                    cause = resurrection_cause(case, obs, extra[0], f["host"])
+                # (third review, point 3: EVERY extra / missing instance is judged, not the first one -- a known finding on one
+                # instance must not hide a fresh violation on another instance of the same browser)
+                for x0 in extra:
+                    if ("x", f["b"], x0) in seen:
+                        continue
+                    seen.add(("x", f["b"], x0))
+                    cause = resurrection_cause(case, obs, x0, f["host"])
                     v.append(("C07:not-removed:" + cause,
                               "browser %d on H%d still reports s%d %d ms after the last change although it is not registered (%s)"
-                              % (f["b"], f["host"], extra[0], after, cause)))
-                if miss and ("m", f["b"], miss[0]) not in seen:
-                    seen.add(("m", f["b"], miss[0]))
+                              % (f["b"], f["host"], x0, after, cause)))
+                for m0 in miss:
+                    if ("m", f["b"], m0) in seen:
+                        continue
+                    seen.add(("m", f["b"], m0))
+                    miss = [m0] + [x for x in miss if x != m0]
                     # was it reported (Added, after its last registration) and taken away again, or never reported?
                     last_reg = max([e[0] for e in tr if e[1] == "reg" and e[2] == miss[0]] or [0])
                     cbs = [e for e in tr if e[1] in ("add", "rem") and e[2] == f["b"] and e[3] == miss[0] and e[0] >= last_reg and e[0] <= ob["t"]]
@@ -1435,6 +1483,32 @@ def oracle(case, obs):
                 if ("b", f["b"], tuple(b)) not in seen:
                     seen.add(("b", f["b"], tuple(b)))
                     v.append(("C07:callback-" + b[0], "listener of browser %d got %s for %s at %d" % (f["b"], b[0], b[1], b[2])))
+    # refused registrations (third review, point 2): a refusal is legitimate only when the instance name was alive in the
+    # registering host's OWN cache while it probed -- a pointer record of that instance it had processed (another host's, or its own
+    # announcement / goodbye still looping back: a withdrawn record lives one more second) -- by the harness's account of the
+    # deliveries, not the library's cache.  Any other exception out of async_register_service is a violation outright
+    for e in obs.get("regfail", []):
+        if not e[1].startswith("regfail:"):
+            continue
+        what = e[1].split(":", 1)[1]
+        i, t_call, t_fail = e[2], e[0], (e[3] if len(e) > 3 else e[0] + 350)
+        if what != "NonUniqueNameException":
+            v.append(("C07:registration-raised:" + what, "async_register_service(s%d) called at %d raised %s at %d" % (i, t_call, what, t_fail)))
+            continue
+        h = svcs[i]["owner"]
+        alive_until = None
+        for x in tr:
+            if x[1] == "dlv" and x[4] == h and x[0] <= t_fail:
+                for it in x[6]:
+                    if it[0] == "p" and it[1] == i:
+                        if it[2] > 0:
+                            alive_until = x[0] + eff_ttl(it[2])
+                        elif alive_until is not None:
+                            alive_until = min(alive_until, x[0] + 1000)
+        if alive_until is None or alive_until < t_call:
+            v.append(("C07:registration-refused-without-a-conflict",
+                      "async_register_service(s%d) called on H%d at %d was refused (NonUniqueNameException) at %d although no pointer record of that "
+                      "instance was alive in the host's cache while it probed (last one handed to it lived until %s)" % (i, h, t_call, t_fail, alive_until)))
     # lookups from Added: judged when the instance was registered when Added fired and stayed so until the lookup ended
     # (an Added for an instance that is not registered is the resurrection reported above, not a lookup failure)
     unreg_times = {}
@@ -1469,7 +1543,11 @@ def oracle(case, obs):
             or (allv[k + 1].get("kind", "upd") == "upd" and allv[k + 1]["t"] + UPDATE_GRACE_MS >= lk["t0"]))]
         # addresses belong to the host name: the lookup returns the service's own addresses, possibly together with addresses that
         # other services advertised for the same host name
-        host_addrs = {ad for vv in obs["versions"] for x in vv if x["server"].lower() == (lk["server"] or "").lower() for ad in x["addrs"]}
+        # (third review, escape mE: of the looked-up service's OWN versions only those acceptable while the lookup runs count -- an
+        # address it has moved away from is a wrong answer; what other services ever advertised under the host name still counts:
+        # an unregistered service does not withdraw addresses its host shares, and their timing is not this lookup's business)
+        host_addrs = {ad for x in vs for ad in x["addrs"]} | {
+            ad for i, vv in enumerate(obs["versions"]) if i != s for x in vv if x["server"].lower() == (lk["server"] or "").lower() for ad in x["addrs"]}
         if not any(x["port"] == lk["port"] and x["server"] == lk["server"] and x["txt"] == lk["txt"]
                    and set(x["addrs"]) <= set(lk["addrs"]) <= host_addrs for x in vs):
             cause = lookup_wrong_cause(case, obs, lk, vs, allv)
@@ -1535,6 +1613,37 @@ def shadow_cache(obs, host, name, t_hi):
     return {key: v[0] for key, v in cache.items() if v[1] > t_hi}
 
 
+def shadow_addresses(obs, host, server, t_hi):
+    """`shadow_cache` for the address records of host name `server`: {address hex: last received} of the records alive in `host`'s
+    cache at t_hi by the cache rules applied to the deliveries its listener PROCESSED (flush per record type A / AAAA)"""
+    from zeroconf import DNSIncoming
+    from zeroconf._dns import DNSAddress
+
+    ign = {x[0] for x in obs.get("ignored", [])}
+    cache = {}
+    memo = obs.setdefault("_parsed", {})
+    for pos, e in enumerate(obs["trace"]):
+        if e[1] != "dlv" or e[4] != host or e[0] > t_hi or pos in ign:
+            continue
+        recs = memo.get(e[2])
+        if recs is None:
+            m = DNSIncoming(bytes.fromhex(obs["datagrams"][e[2]][4]))
+            recs = memo[e[2]] = [] if (not m.valid or m.is_query()) else m.answers()
+        t = e[0]
+        mine = [((r.type, r.address.hex()), r) for r in recs if isinstance(r, DNSAddress) and r.name.lower() == server]
+        for key, r in mine:
+            if r.ttl == 0:
+                cache.pop(key, None)
+            else:
+                cache[key] = [t, t + 1000 * r.ttl]
+        for kind in {key[0] for key, r in mine if r.unique and r.ttl > 0}:
+            present = {key for key, r in mine}
+            for key, v in cache.items():
+                if key[0] == kind and key not in present and t - v[0] > 1000:
+                    v[0], v[1] = t, t + 1000
+    return {key[1]: v[0] for key, v in cache.items() if v[1] > t_hi}
+
+
 def lookup_wrong_cause(case, obs, lk, vs, allv):
     """classify a wrong lookup result from the INPUT side (what reached the host), never from the library's state.
 
@@ -1547,6 +1656,19 @@ def lookup_wrong_cause(case, obs, lk, vs, allv):
 
     bh = obs["browsers"][lk["b"]]["host"]
     name = svc_name(lk["s"], case["svcs"][lk["s"]]["ty"]).lower()
+    cur_ok = [x for x in vs if x["port"] == lk["port"] and x["server"] == lk["server"] and x["txt"] == lk["txt"] and set(x["addrs"]) <= set(lk["addrs"])]
+    if cur_ok:
+        # everything is the advertised version's except that addresses the service has moved away from are still returned.  Known
+        # finding F5 when, by the shadow of the host's cache, those address records are legitimately alive: received less than a
+        # second before the update (so its first announcement must not flush them, RFC 6762 10.2) while the announcements that
+        # would have flushed them a second later -- verbatim repeats -- were dropped by the duplicate-packet guard.  A tree that
+        # skips the flush rule for address records is not covered: the shadow cache has flushed them
+        own_old = {ad for x in allv for ad in x["addrs"]}
+        extra = set(lk["addrs"]) - {ad for x in cur_ok for ad in x["addrs"]}
+        alive = shadow_addresses(obs, bh, (lk["server"] or "").lower(), lk["t1"])
+        if extra and extra <= own_old and all(ad in alive for ad in extra):
+            return "withdrawn-address-outlives-the-flush-rule"
+        return ""
     old = [k for k, x in enumerate(allv) if x not in vs and x["t"] <= lk["t1"] and x["port"] == lk["port"] and x["server"] == lk["server"]
            and x["txt"] == lk["txt"]]
     if old:
@@ -1582,8 +1704,56 @@ def lookup_wrong_cause(case, obs, lk, vs, allv):
             why = announcement_completes_before_its_txt(case, obs, lk["s"], bh, lk["t1"])
             if why:
                 return "announcement-completes-before-its-txt"
-            return "success-without-txt"
+            # ... and INCLUDES only what the link, the TTLs or a split the unchanged record order can produce did to a TXT the owner
+            # really advertised (third review, point 1: "no TXT reached the host" alone describes the wire, and a sender that
+            # transmits its TXT with TTL 0, or not at all, produces the same wire)
+            if f1_input_class(case, obs, lk, bh, name, held_txt):
+                return "success-without-txt"
+            return "txt-not-sent-as-registered"
     return ""
+
+
+def f1_input_class(case, obs, lk, host, name, held_txt):
+    """F1's input class, judged on the owner's SENDS against its registration.  Either (TTL asymmetry) the host had been handed the
+    TXT as registered -- positive TTL = the registered other_ttl, text of an advertised version -- and it has run out while the SRV /
+    address have not; or (split / loss / order) the owner did put such a TXT on the link, in the same message (the datagrams it sent
+    at one instant to one destination) as a datagram of that message the host had processed, and the TXT's own datagram had not been
+    processed by the host when the lookup returned"""
+    from zeroconf import DNSIncoming
+    from zeroconf._dns import DNSText
+
+    s = lk["s"]
+    sv = case["svcs"][s]
+    ttls = {sv.get("other_ttl") or 4500} | {o[3]["other_ttl"] for o in case["ops"] if o[1] == "update" and o[2] == s and len(o) > 3
+                                             and isinstance(o[3], dict) and o[3].get("other_ttl")}
+    texts = {x["txt"] for x in obs["versions"][s] if x["t"] <= lk["t1"]}
+
+    def as_registered(r):
+        return isinstance(r, DNSText) and r.name.lower() == name and r.ttl in ttls and r.text.hex() in texts
+
+    if held_txt and as_registered(held_txt[-1][1]) and held_txt[-1][0] + 1000 * held_txt[-1][1].ttl <= lk["t1"]:
+        return True
+    ign = {x[0] for x in obs.get("ignored", [])}
+    processed = {e[2] for pos, e in enumerate(obs["trace"]) if e[1] == "dlv" and e[4] == host and e[0] <= lk["t1"] and pos not in ign}
+    owner = sv["owner"]
+    trains = {}
+    for e in obs["trace"]:
+        if e[1] == "send" and e[2] == owner and e[0] <= lk["t1"]:
+            trains.setdefault((e[0], e[4], obs["datagrams"][e[3]][2]), []).append(e[3])
+    memo = obs.setdefault("_parsed", {})
+    for ds in trains.values():
+        if not any(d in processed for d in ds):
+            continue
+        for d in ds:
+            if d in processed:
+                continue
+            recs = memo.get(d)
+            if recs is None:
+                m = DNSIncoming(bytes.fromhex(obs["datagrams"][d][4]))
+                recs = memo[d] = [] if (not m.valid or m.is_query()) else m.answers()
+            if any(as_registered(r) for r in recs):
+                return True
+    return False
 
 
 def announcement_completes_before_its_txt(case, obs, s, host, t_hi):
@@ -1769,7 +1939,8 @@ def resurrection_cause(case, obs, s, host=None):
 
 KNOWN_SIGS = {"C07:goodbyes-cut-by-close", "C07:not-removed:goodbyes-cut-by-close", "C07:lookup-from-added-wrong:success-without-txt",
               "C07:not-added:type-spelled-in-another-case", "C07:lookup-from-added-wrong:last-inserted-record-preferred-to-the-most-recently-received",
-              "C07:not-removed:goodbye-repeats-ignored-by-the-other-sockets-duplicate-guard"}
+              "C07:not-removed:goodbye-repeats-ignored-by-the-other-sockets-duplicate-guard",
+              "C07:lookup-from-added-wrong:withdrawn-address-outlives-the-flush-rule"}
 
 
 def train_of(obs, t, h, dst_of=None):
@@ -1833,6 +2004,18 @@ def check_case(case, res, ctx, tag, lean_jobs, proj=False):
     vio = oracle(case, obs)
     mon = monitors(tr, endT)
     mon_all = mon
+    if case.get("listen") or case.get("stack", "4") == "46":
+        # a host with two receiving sockets (the library's DEFAULT topology) has two listener objects, each with its own duplicate-packet
+        # guard: on one listener an ignored verbatim repeat is a no-op (C16) and "arrived" = "processed"; on two it is not (finding F4).
+        # Third review, point 4: these runs are judged like all others, on the trace of what the hosts PROCESSED -- the deliveries a
+        # listener did not parse (`obs["ignored"]`, observed) are left out for every contract that speaks about processing (K1-K6, K3b,
+        # K5a, K6f, KF); the link's own contract K7 and WF are judged on the full trace.  What F4 explains needs no blanking: the
+        # record the unicast answer re-added IS the last pointer the host processed, so K5 holds, and the end-to-end consequence
+        # carries F4's own signature
+        res.count("runs-on-hosts-with-two-listeners(contracts judged on the processed deliveries)")
+        ign = {x[0] for x in obs.get("ignored", [])}
+        tr_proc = norm_trace(case, dict(obs, trace=[e for k, e in enumerate(obs["trace"]) if k not in ign]))
+        mon = dict(monitors(tr_proc, endT), WF=mon["WF"], K7=mon["K7"])
     conc = conclusion(tr, endT)
     conc_all = conc
     brief = {"case": case, "tag": tag}
@@ -1875,13 +2058,6 @@ def check_case(case, res, ctx, tag, lean_jobs, proj=False):
         if len(k6f) != len(mon["K6f"]) or len(k4) != len(mon["K4"]) or len(k1) != len(mon["K1"]):
             res.count("runs-with-multi-packet-messages(completeness judged per message)")
             mon = dict(mon, K6f=k6f, K4=k4, K1=k1)
-    if case.get("listen") or case.get("stack", "4") == "46":
-        # a host with two receiving sockets has two listener objects, each with its own duplicate-packet guard: whether a delivery is
-        # PROCESSED depends on the socket it arrives on, which the link model (one receive path per host; an ignored verbatim repeat is
-        # a no-op, C16) cannot express.  The contracts are not judged on these runs; the property's own sentence (stage O) is
-        res.count("runs-on-hosts-with-two-listeners(stage O only)")
-        mon = {k: [] for k in mon}
-        conc = []
     # known finding "type spelled in another case": the browser does not report (live = false) what its host's cache holds
     k5 = [w for w in mon["K5"] if not (w[4] is False and w[3][2] < len(case["svcs"])
                                        and obs["browsers"][w[2][2]].get("tcase", 0) != case["svcs"][w[3][2]].get("case", 0) & 1)]
